@@ -270,7 +270,7 @@ def history_worker(job):
         for mk, how in markers:
             if marker_present(D.d, mk) is None:
                 viol.append(('user-work-lost:' + mk.split('-')[1], '%s: marker %s (%s) is nowhere under the project any more' % (where, mk, how)))
-        if rc == 0 and not touched and spec['dep']:
+        if rc == 0 and not touched and spec['dep'] and not (spec['ref'] == 'bc1' and rewritten):     # a rewritten upstream no longer has commit c1
             want = fresh[(tuple(sorted(spec.items())), tuple(ups))]
             got = src_tree(os.path.join(D.d, 'dev', 'src', 'p', '1', 'workspace'))
             if got != want:
@@ -398,7 +398,7 @@ def needed_fresh(hists):
                 if s2 is not None: spec = s2
             elif a in UP_ACTIONS: ups.append(a)
             else: break
-            if spec['dep']: need.add((tuple(sorted(spec.items())), tuple(ups)))
+            if spec['dep'] and not (spec['ref'] == 'bc1' and 'u_rewrite' in ups): need.add((tuple(sorted(spec.items())), tuple(ups)))
     return need
 
 
